@@ -289,6 +289,9 @@ class SBytes:
 
     def decode(self, encoding: str = "utf-8", errors: str = "strict"):
         name = _norm_encoding(encoding)
+        if name == "iso8859-1" and errors == "strict":
+            # latin-1 decodes every byte to the code point of the same value
+            return mkstr([x if isinstance(x, int) else z3.ZeroExt(CPW - 8, item_bv(x)) for x in self.items])
         if name != "cp1252" or errors != "strict":
             raise Unsupported(f"SBytes.decode({encoding!r}, {errors!r})")
         out = []
@@ -398,6 +401,18 @@ class SStr:
 
     def encode(self, encoding: str = "utf-8", errors: str = "strict"):
         name = _norm_encoding(encoding)
+        if name == "iso8859-1" and errors == "strict":
+            out = []
+            for i, x in enumerate(self.items):
+                if isinstance(x, int):
+                    if x > 255:
+                        raise UnicodeEncodeError("latin-1", "?", 0, 1, "ordinal not in range(256)")
+                    out.append(x)
+                    continue
+                if not branch(z3.ULT(x, 256)):
+                    raise UnicodeEncodeError("latin-1", "?", 0, 1, f"ordinal not in range(256) (symbolic char {i})")
+                out.append(z3.simplify(z3.Extract(7, 0, x)))
+            return mkbytes(out)
         if name != "cp1252" or errors != "strict":
             raise Unsupported(f"SStr.encode({encoding!r}, {errors!r})")
         out = []
